@@ -193,11 +193,30 @@ def obligations_lookup(rep, repo, m):
                 else:
                     break
     got = {b[0] for b in branches}
+    if len(got) == 1:
+        # the other request as straight-line code after the first branch returned:
+        #   if degree is not None: ...; return ...
+        #   if size is None: raise ...
+        #   <size branch>
+        first = branches[0]
+        top = list(body)
+        other = ({"degree", "size"} - got).pop()
+        if first[2] in top and first[1] and isinstance(first[1][-1], ast.Return):
+            rest = top[top.index(first[2]) + 1:]
+            for i, s in enumerate(rest):
+                t = s.test if isinstance(s, ast.If) else None
+                if t is not None and isinstance(t, ast.Compare) and len(t.ops) == 1 and isinstance(t.ops[0], ast.Is) and \
+                        isinstance(t.comparators[0], ast.Constant) and t.comparators[0].value is None and \
+                        norm(t.left) == other and s.body and isinstance(s.body[-1], ast.Raise) and not s.orelse:
+                    branches.append((other, rest[i + 1:], s))
+                    break
+        got = {b[0] for b in branches}
     if got != {"degree", "size"}:
         raise AnalysisError(f"unrecognised idiom: _get_degree_and_size has no `degree is not None` / `size is not None` "
                             f"branches (found {sorted(got)})")
-    expect_table = {"degree": "dict_degrees", "size": "dict_npoints"}
-    other_table = {"degree": "dict_npoints", "size": "dict_degrees"}
+    vd, vn = m.var["_get_degree_and_size"]["degrees"], m.var["_get_degree_and_size"]["npoints"]
+    expect_table = {"degree": vd, "size": vn}
+    other_table = {"degree": vn, "size": vd}
     for x, bbody, node in branches:
         T = expect_table[x]
         cons = f"angular.AngularGrid._get_degree_and_size[{x}]"
@@ -265,7 +284,7 @@ def obligations_lookup(rep, repo, m):
         if ret is None or not isinstance(ret.value, ast.Tuple) or len(ret.value.elts) != 2:
             raise AnalysisError(f"unrecognised idiom in {cons}: branch does not return a pair")
         a, b = (norm(z) for z in ret.value.elts)
-        want = (("degree", "dict_degrees[degree]") if x == "degree" else ("dict_npoints[size]", "size"))
+        want = (("degree", f"{vd}[degree]") if x == "degree" else (f"{vn}[size]", "size"))
         if (a, b) == want:
             rep.ok("O3.matching-pair", cons, repo.rel("angular", ret), f"return {a}, {b}")
         else:
